@@ -15,7 +15,7 @@ use std::collections::BTreeMap;
 use std::f64::consts::PI;
 
 pub fn prop() -> Prop {
-    Prop { id: "C04", corr, laws, extra, law_budget: (250, 2500) }
+    Prop { id: "C04", corr, laws, extra, law_budget: (250, 2000) }
 }
 
 // ------------------------------------------------------------------ style encoding
@@ -1126,7 +1126,7 @@ fn throttle(res: Option<(String, String)>) -> Option<(String, String)> {
     if let Some((c, _)) = &res {
         for (i, k) in KNOWN.iter().enumerate() {
             if c.starts_with(k) {
-                if COUNTS[i].fetch_add(1, Ordering::Relaxed) >= 12 {
+                if COUNTS[i].fetch_add(1, Ordering::Relaxed) >= 12 && std::env::var("C04_NOTHROTTLE").is_err() {
                     return None;
                 }
             }
@@ -1308,7 +1308,7 @@ fn region_core(inst: Inst, fixed_q: Option<Point>) -> Option<(String, String)> {
             }
             let style = format!("{}-{}-{}{}", jname(inst.a[1]), cname(inst.a[3]), cname(inst.a[4]), dashed);
             let desc = format!("point {:?} at distance {} from the path (width/2 = {}, band {}) has winding number 0 in the outline; {} regularize=[{}]", q, dmin, half, band, describe(&inst), regularize_tags(&src_els, inst.tol));
-            let slack = 6.0 * inst.tol;
+            let slack = std::env::var("C04_SLACK").ok().and_then(|v| v.parse::<f64>().ok()).unwrap_or(12.0) * inst.tol;
             let (rad_near, tight_other, near_c) = tightness_near(&src, q, half, half + band);
             let near_tag = near_c.map(|c| ref_regularize(&CubicBez::new(c[0], c[1], c[2], c[3]), 0.25 * inst.tol).1).unwrap_or_default();
             let cause = if past_evolute(&src, q, half, band) {
@@ -1319,10 +1319,13 @@ fn region_core(inst: Inst, fixed_q: Option<Point>) -> Option<(String, String)> {
                 // the tip of a hairpin / cusp: the stroker offsets the (reference-)regularised cubic and fits across the swing
                 let reg = regularized_polys(&src_els, inst.tol, eps);
                 let dreg = reg.iter().fold(f64::INFINITY, |m, s| m.min(s.dist(q).0));
+                let short = (half - band - dmin) / inst.tol;
                 if dreg > half - band - slack {
-                    Some(("regularized-cusp", format!("q is {} from the regularised curve: not (robustly) inside its stroke", dreg)))
+                    Some(("regularized-cusp", format!("q is {} from the regularised curve: not (robustly) inside its stroke; short by {:.2} tolerances beyond the band; tip of a [{}] cubic", dreg, short, near_tag)))
                 } else if near_tag.contains("loop") {
                     Some(("regularized-cusp", "q is at the tip of a near-cusp that regularize treats as a Loop (control arms pushed outwards by tolerance/4 each)".to_string()))
+                } else if near_tag.contains("double-inflection") && short <= 30.0 {
+                    Some(("regularized-cusp", format!("q is at the tip of a near-cusp that regularize treats as a double inflection, short by {:.2} <= 30 tolerances beyond the band", short)))
                 } else {
                     None
                 }
@@ -1345,8 +1348,18 @@ fn region_core(inst: Inst, fixed_q: Option<Point>) -> Option<(String, String)> {
             // tolerance away from the source's (reference copy of regularize, not the tree's own)
             let reg = regularized_polys(&src_els, inst.tol, eps);
             let dreg = reg.iter().fold(f64::INFINITY, |m, s| m.min(s.dist(q).0));
-            let (rad_near, _, _) = tightness_near(&src, q, half, 0.0);
-            if dreg < reach + band || (rad_near < half && dreg < reach + band + 6.0 * inst.tol) {
+            let (rad_near, _, near_c) = tightness_near(&src, q, half, 0.0);
+            let near_tag = near_c.map(|c| ref_regularize(&CubicBez::new(c[0], c[1], c[2], c[3]), 0.25 * inst.tol).1).unwrap_or_default();
+            // a Loop-regularised tip within two reaches of q: its overshoot can be what covers q
+            let loop_tip_near = src.iter().any(|s| match s.ctrl {
+                Some(c) if ref_regularize(&CubicBez::new(c[0], c[1], c[2], c[3]), 0.25 * inst.tol).1.contains("loop") => {
+                    let n = s.pts.len() - 1;
+                    s.pts.iter().enumerate().any(|(i, p)| (q - *p).hypot() <= 2.0 * reach + band && curv_radius_at(&c, i as f64 / n as f64) < half)
+                }
+                _ => false,
+            });
+            let over = (dmin - reach - band) / inst.tol;
+            if dreg < reach + band || (rad_near < half && (dreg < reach + band + 8.0 * inst.tol || near_tag.contains("loop") || (near_tag.contains("double-inflection") && over <= 30.0))) || loop_tip_near {
                 if known_hit.is_none() {
                     known_hit = Some((format!("region:overreach:regularized-cusp:{}", style), format!("(q is {} from the regularised curve; nearest source point has radius of curvature {}) {}", dreg, rad_near, desc)));
                 }
@@ -1797,7 +1810,7 @@ fn gen_wild_cubics(r: &mut Rng) -> Vec<PathEl> {
 /// points within the dimension of an end point. Exercises every branch of `regularize` (tags in the evidence).
 fn gen_near_cusp(r: &mut Rng) -> (Vec<f64>, Vec<PathEl>) {
     let scale = *r.pick(&[0.3, 1.0, 3.0, 10.0, 30.0]) * r.uniform(0.7, 1.4);
-    let ratio = log_uniform(r, 1.0, 100.0);
+    let ratio = if r.chance(1, 4) { log_uniform(r, 100.0, 1000.0) } else { log_uniform(r, 1.0, 100.0) };
     let (la, lb) = if r.bool() { (scale, scale * ratio) } else { (scale * ratio, scale) };
     // keep the whole thing within a few hundred units
     let shrink = (200.0 / la.max(lb)).min(1.0);
@@ -1982,7 +1995,7 @@ fn laws() -> Vec<Law> {
         Law { name: "region_polyline", gen: g_region_polyline, check: law_region, weight: 4 },
         Law { name: "region_smooth", gen: g_region_smooth, check: law_region, weight: 3 },
         Law { name: "region_round", gen: g_region_round, check: law_region, weight: 3 },
-        Law { name: "region_cusp", gen: g_region_cusp, check: law_region, weight: 3 },
+        Law { name: "region_cusp", gen: g_region_cusp, check: law_region, weight: 6 },
         Law { name: "region_dashed", gen: g_region_dashed, check: law_region, weight: 1 },
         Law { name: "region_at_point", gen: g_region_at, check: law_region_at, weight: 1 },
         Law { name: "closed_finite", gen: g_closed_finite, check: law_closed_finite, weight: 6 },
@@ -2045,6 +2058,16 @@ fn extra(r: &mut Rng, thorough: bool, o: &mut Out) {
         let q: Vec<String> = ratios.iter().map(|(k, v)| format!("{}={}", k, v)).collect();
         o.notes.push(format!("near-cusp family: regularize branches reached: {}; cusp type by last-arm:first-arm ratio: {}; tree's detect_cusp differs from the reference copy on {} of {} cubics", t.join(" "), q.join(" "), differ, m));
     }
+    // regression: a double-inflection hairpin with arms 1:200 (seeded change to CubicBez::regularize, C14c/C04): the
+    // unchanged tree strokes its tip correctly at this tolerance
+    {
+        let els = [PathEl::MoveTo(Point::new(0.0, 0.0)), PathEl::CurveTo(Point::new(0.5, 0.0), Point::new(0.255, -49.995), Point::new(0.255, 50.005))];
+        let a = encode(&[1.0, 2.0, 4.0, 2.0, 2.0, 0.01], 12345, 400, 0.0, &[], &els);
+        o.oracle_eval("region_cusp");
+        if let Some((class, desc)) = region_core(decode(&a), None) {
+            o.violation(&class, desc, format!("{{\"law\":\"region_cusp\",\"args\":{}}}", crate::util::fmt_fs(&a)));
+        }
+    }
     // witness of the inner-join defect (repaired by proposed_fixes/C04-inner-join-pivot.diff):
     // M(0,0) L(1,0) L(1,10), width 4, bevel, butt: (-0.5, 0.25) is 1.5 from the interior point (1, 0.25)
     {
@@ -2076,10 +2099,14 @@ fn extra(r: &mut Rng, thorough: bool, o: &mut Out) {
         let a = encode(&[0.24274319433519495, 2.0, 4.0, 2.0, 2.0, 0.011027175279603778], 0, 0, 0.0, &[], &els);
         let res = outline_bounded_core(&a);
         o.known("C04-hairpin-wild-outline", res.is_some(), res.map(|x| x.1).unwrap_or_else(|| "outline of the witness is bounded".into()));
-        at("C04-tight-curve-uncovered", "region:uncovered:past-evolute", (2.5996601595717213, -0.12003054839953275), [6.751305898077076, 2.0, 4.0, 2.0, 2.0, 0.06561294281056844],
-            cub((9.499634494534643, -8.126448073381853), (-1.488752582710184, 2.23534158027398), (3.157241217623344, -10.449444973548617), (4.853640694201115, 4.558338480440744), true), o);
-        at("C04-tight-curve-overreach", "region:overreach:regularized-cusp", (3.6976635443693144, 0.3134411868911364), [1.4824189817891884, 2.0, 4.0, 2.0, 2.0, 0.02177987061405037],
-            cub((-4.891905427624228, 4.668559868765865), (5.310064929314464, -3.476929891000487), (5.398067579781608, 4.4942493981818), (-5.026922418289281, -3.3018230051334863), false), o);
+        at("C04-tight-curve-uncovered", "region:uncovered:past-evolute", (2.797532786320815, -0.6642382095771762), [0.6955085470872964, 2.0, 4.0, 2.0, 2.0, 0.05564068376698371],
+            cub((2.931439491793409, -0.6738683902987939), (3.1875764235728115, 0.2753771382530463), (0.5238841942716137, -1.2028278670763584), (9.013916576239716, 1.0646005642220562), false), o);
+        at("C04-tight-curve-overreach", "region:overreach:regularized-cusp", (1.7939114907387634, 0.469703120115587), [2.6475379754299553, 2.0, 4.0, 2.0, 2.0, 0.0015106742541396117],
+            vec![PathEl::MoveTo(Point::new(4.565792371093728, 1.177169700155142)), PathEl::LineTo(Point::new(0.9507811342691959, 2.789052816943417)),
+                 PathEl::CurveTo(Point::new(4.26392518068368, 4.633024882441313), Point::new(1.3677931111350223, -1.8559245297297506), Point::new(3.554624582939456, 4.742761446527548)),
+                 PathEl::LineTo(Point::new(4.271678933757974, 9.997012060321804))], o);
+        at("C04-unrecognised-cusp", "region:uncovered:unrecognised-cusp", (-5.20413822695242, 0.1090127940283), [1.413459109700561, 2.0, 4.0, 2.0, 2.0, 0.00778829969079009],
+            cub((-4.7054032645368, -0.7271798595249628), (-5.633765030884642, -0.08978645310175293), (-4.093026857342927, 0.05168164555888333), (-3.156971929117649, -9.219458667630754), false), o);
         at("C04-cusp-tip-short", "region:uncovered:regularized-cusp", (97.63251517702321, -0.23636747138676206), [2.641168287167404, 2.0, 4.0, 2.0, 2.0, 0.017678796959989657],
             cub((-0.05711805948388182, -3.4302413087626116), (199.8748688960256, 1.785177372608283), (27.698872612477857, -2.156844534475717), (27.0393911765674, -4.050032572791746), false), o);
         at("C04-short-arm-tangent-mismatch", "region:uncovered:short-arm-tangent-mismatch", (1.6437865968322547, -2.1086731508489813), [10.0, 2.0, 4.0, 2.0, 2.0, 0.0017],
